@@ -373,7 +373,7 @@ def o10(h, st):
     err = float(np.max(np.abs(got_qsem - exp)))
     h.check("statevector == U(c) applied to the initial state", err < 1e-6, detail=f"max err {err:.2e} {[(g.name, g.target, g.control, g.parameter) for g in gates]}")
     probs = {format(i, f"0{n}b"): abs(exp[i]) ** 2 for i in range(2 ** n) if abs(exp[i]) ** 2 > 1e-9}
-    ok = all(len(k) == n for k in freqs) and all(abs(float(freqs.get(k, 0.0)) - probs.get(k, 0.0)) < 1e-6 for k in set(freqs) | set(probs))
+    ok = all(len(k) == n for k in freqs) and all(abs(complex(freqs.get(k, 0.0)) - probs.get(k, 0.0)) < 1e-6 for k in set(freqs) | set(probs))
     h.check("outcome distribution == |amplitude|^2, keys qubit 0 first", ok, detail=f"{freqs} vs {probs}")
     h.done()
 
@@ -391,3 +391,115 @@ PROPERTY = {
                     "floats as reals", "numerical accuracy of the simulators themselves is not decided"],
     "trusted_base": ["tverif AST interpreter", "tverif.ring / qsem / fakes", "z3", "cirq", "sympy"],
 }
+
+
+# ---------------------------------------------------------------------------------------------------------------------
+# P: the translators' loop step for a circuit of ANY length (loop cut with an invariant; see Interp.s_For / GhostIterable)
+
+from tverif.interp import GhostIterable
+
+
+class GenericGateOfAnyCircuit(GhostIterable):
+    """source_circuit._gates of unknown length: one generic iteration on `gate`, with an opaque translated prefix"""
+
+    def __init__(self, h, gate, n, lib):
+        self.h, self.gate, self.n, self.lib = h, gate, n, lib
+        self.before = snapshot(gate.__dict__)
+        self.iterations = 0
+
+    def element(self):
+        self.iterations += 1
+        return self.gate
+
+    def init(self, interp, env):
+        h = self.h
+        t = env.lookup("target_circuit")
+        if self.lib == "cirq":
+            h.check("on loop entry: identity on every qubit, nothing else", [o.gate.name for o in t.ops] == ["I"] * self.n)
+            h.check("on loop entry: measurement counter is 0", env.lookup("measure_count") == 0)
+        else:
+            h.check("on loop entry: empty product", t == 1)
+
+    def havoc(self, interp, env):
+        if self.lib == "cirq":
+            self.m = self.h.integer("m")
+            self.h.assume(self.m >= 0)
+            env.assign("measure_count", self.m)
+            t = env.lookup("target_circuit")
+            t.ops[:] = [fakes.COp(fakes.CGateT("<opaque translated prefix>"), [])]
+            self.frozen = {k: env.lookup(k) for k in ("qubit_list", "GATE_CIRQ")}
+        else:
+            env.assign("target_circuit", fakes.SProd([fakes.SGate("<opaque translated prefix>", [])]))
+
+    def step(self, interp, env, broke):
+        h, g, n = self.h, self.gate, self.n
+        h.check("the loop does not stop early", not broke)
+        h.check("source gate unchanged by its translation", snapshot(g.__dict__) == self.before)
+        E, A = qsem.unitary([g], n, exact=True) if g.name != "MEASURE" else (None, qsem.Exact)
+        t = env.lookup("target_circuit")
+        if self.lib == "cirq":
+            h.check("translated prefix untouched", t.ops[0].gate.name == "<opaque translated prefix>")
+            new = t.ops[1:]
+            if g.name == "MEASURE":
+                h.check("one measurement operation on the target", len(new) == 1 and new[0].gate.name == "measure" and new[0].qubits == list(g.target))
+                h.check_close("measurement counter incremented", env.lookup("measure_count"), self.m + 1)
+            else:
+                U = fakes.cirq_unitary(new, n, A)
+                h.mat_equal("operations appended for this gate implement U(gate)", U, E, A, n)
+                h.check_close("measurement counter unchanged", env.lookup("measure_count"), self.m)
+            h.check("tables and qubit list not rebound", all(env.lookup(k) is v for k, v in self.frozen.items()))
+        else:
+            h.check("translated prefix untouched and the new factor is on the right", isinstance(t, fakes.SProd) and t.factors[0].name == "<opaque translated prefix>")
+            U = fakes.sympy_unitary(fakes.SProd(t.factors[1:]), n, A)
+            h.mat_equal("factor appended for this gate implements U(gate)", U, E, A, n)
+            h.check("exactly one factor per gate", len(t.factors) == 2)
+
+
+def p4_structures(tier):
+    sts = [s for s in o4_structures(tier) if len(s["gates"]) == 1 and not s.get("unsupported")]
+    sts.append({"gates": [["MEASURE", [1], None]], "n": 3})
+    return sts
+
+
+@contract("C01", "P4.translate_c_to_cirq.loop_step.any_length", targets=[(TC, "translate_c_to_cirq")], level="P", structures=p4_structures)
+def p4(h, st):
+    """for a source circuit of ANY length: the translation loop starts from the identity moment, and one generic iteration (arbitrary already-translated prefix, arbitrary
+    measurement counter) appends operations implementing exactly U(gate) for the current gate (every supported name / controls / placement / angle), leaves the prefix and
+    the source gate untouched and increments the measurement counter only for MEASURE. By induction the translation is the ordered concatenation of per-gate operations"""
+    install_fakes(h)
+    if not h.symbolic:
+        h.check("native: covered by O4", True)
+        h.done()
+        return
+    from tangelo.linq import Circuit
+    n = st["n"]
+    g = build_gates(h, st["gates"])[0]
+    c = Circuit.__new__(Circuit)
+    it = GenericGateOfAnyCircuit(h, g, n, "cirq")
+    c.__dict__ = {"_gates": it, "_qubit_indices": set(range(n)), "_qubits_simulated": n, "name": "any", "_gate_counts": {}, "_n_qubit_gate_counts": {}, "_variational_gates": []}
+    out = h.call(TC, "translate_c_to_cirq", c)
+    h.check("the loop body was entered once for the generic gate", it.iterations == 1)
+    h.check("the accumulated circuit is returned", isinstance(out, fakes.CCircuit))
+    h.done()
+
+
+@contract("C01", "P3.translate_c_to_sympy.loop_step.any_length", targets=[(TS, "translate_c_to_sympy")], level="P",
+          structures=lambda tier: [s for s in o3_structures(tier) if len(s["gates"]) == 1 and not s.get("unsupported")])
+def p3(h, st):
+    """for a source circuit of ANY length: the gates are visited in REVERSED order and one generic iteration multiplies the product on the right by exactly one factor
+    implementing U(gate) (rightmost factor acts first, so gate 0 acts first); prefix and source gate untouched"""
+    install_fakes(h)
+    if not h.symbolic:
+        h.check("native: covered by O3", True)
+        h.done()
+        return
+    from tangelo.linq import Circuit
+    n = st["n"]
+    g = build_gates(h, st["gates"])[0]
+    c = Circuit.__new__(Circuit)
+    it = GenericGateOfAnyCircuit(h, g, n, "sympy")
+    c.__dict__ = {"_gates": it, "_qubit_indices": set(range(n)), "_qubits_simulated": n, "name": "any"}
+    h.call(TS, "translate_c_to_sympy", c)
+    h.check("gates are visited in reversed order", it.reversed is True)
+    h.check("the loop body was entered once for the generic gate", it.iterations == 1)
+    h.done()
